@@ -49,10 +49,14 @@ asked for two changes breaking any property; every change was run against all tw
 |---|---|---|---|
 """ + "\n".join(free) + """
 
-**Harmless-refactoring round (false-alarm test).**  Two agents wrote twelve behaviour-preserving refactorings (switch for
-if-chains, extracted helpers, loop forms, hoisted invariants, renamed locals, named constants, simplified conditions)
-across the modelled files, verified byte-identical on all shipped batches; all twenty checks were run against each
-(`seeded/harmless/`): %d patches, %d alarms%s.
+**Harmless-refactoring rounds (false-alarm test).**  Four agents wrote twenty-four behaviour-preserving refactorings
+(switch for if-chains, extracted helpers — among them the argument parsing at the top of `Run` —, split functions,
+loop forms, hoisted invariants, renamed locals, read-only package-level tables, accessors, helpers moved between
+files, named constants, simplified conditions) across the modelled files, verified byte-identical on all shipped
+batches; all twenty checks were run against each (`seeded/harmless/`): %d patches, %d alarms with the current
+checks%s.  The first run of the second round found ONE false alarm: C14 treated the text of seven glue statements
+of `run.go` as a proof obligation and reported the extraction of the argument parsing into a helper; the tie now
+goes through the real `Run` (probe `VerifConfig`, §2.3) and the text comparison is an information line only (§11).
 
 """ % (len(rows), len(alarms), "" if not alarms else " (see RESULTS.md)")
 open(V + "/DESIGN.md", "w").write(d[:a] + new + "\n" + d[b:])
